@@ -106,7 +106,7 @@ TraceStart ==
   /\ LET e == Trace[l]
      IN /\ Chk("emptystore", e.dump = <<>> /\ e.other = 0)
         /\ J' = [none |-> FALSE, c |-> e.c, pl |-> e.pl, exp |-> ExpConc(e), size |-> ExpSize(e),
-                 accept |-> Accept(e), toobig |-> TooBig(e), mt |-> Pairs(e.mt), sibs |-> e.sibs]
+                 accept |-> Accept(e), toobig |-> TooBig(e), mt |-> Pairs(e.mt), sibs |-> e.xsibs]
         /\ ms' = "new"
 
 TraceSubmit ==
